@@ -149,6 +149,7 @@ static void hkdf_stream(const args_t *a, long idx)
 
 /* ------------------------------------------------------------------ C14 */
 
+static const uint8_t *OV_PW, *OV_SALT;
 static void pbkdf2_case(const args_t *a, long idx, size_t outlen, size_t pl, size_t sl, unsigned long count)
 {
     rng_t r = rng_for(a->seed, 0x9BDF, (uint64_t)idx);
@@ -162,6 +163,7 @@ static void pbkdf2_case(const args_t *a, long idx, size_t outlen, size_t pl, siz
     if (idx % 97 == 0 || a->only >= 0) emit_sample();
     pw = gb_place(&gKEY, pl, (int)(idx % 3), (unsigned)(idx & 7), nullmode, 0);     if (pl) fill_class(&r, pw, pl, bc);
     salt = gb_place(&gSALT, sl, (int)((idx + 1) % 3), (unsigned)((idx >> 3) & 7), nullmode, 0); if (sl) fill_class(&r, salt, sl, bc);
+    if (OV_PW) { if (pl) memcpy(pw, OV_PW, pl); if (sl) memcpy(salt, OV_SALT, sl); }      /* corpus entry: exactly these bytes */
     gb_readonly(&gKEY); gb_readonly(&gSALT);
     out = gb_place(&gOUT, outlen, (idx % 4 == 3) ? PL_MID : PL_END, (unsigned)((idx >> 1) & 7), nullmode, 0x3D);
     MSAN_POISON(out, outlen);
@@ -242,6 +244,28 @@ int main(int argc, char **argv)
             unsigned long cnt = (rnd(&r, 12) == 0 && ol <= 200) ? rnd(&r, 200) : rnd(&r, 8);
             if (mine(&a, idx)) pbkdf2_case(&a, idx, ol, rnd(&r, 3) ? rnd(&r, 260) : PWL[rnd(&r, 7)], rnd(&r, 80), cnt);
         }
+    } else if (!strcmp(a.mode, "special")) {
+        /* corpus (model/mine.c): (password, salt) for which, at iteration j of block 1, a word of the accumulator equals
+         * the same word of U_j, or a word of U_j is 0 / ffffffff: counts j-1, j, j+1 and 2j against the model */
+        FILE *f = special_open();
+        special_t sp;
+        unsigned long long n_special = 0;
+        if (!f) { if (a.batch == 0) emit_info("special corpus not available ($VERIF_SPECIAL)"); }
+        else {
+            while (special_next(f, &sp)) {
+                uint8_t pw[64], st[64];
+                size_t pl, sl;
+                int j, q;
+                if (strcmp(sp.tok[0], "pbkdf2") || sp.ntok < 5) continue;
+                pl = special_unhex(sp.tok[1], pw, sizeof pw); sl = special_unhex(sp.tok[2], st, sizeof st); j = atoi(sp.tok[3]);
+                for (q = 0; q < 4; ++q, ++idx) {
+                    unsigned long cnt = q == 0 ? (unsigned long)j - 1 : q == 1 ? (unsigned long)j : q == 2 ? (unsigned long)j + 1 : 2ul * (unsigned long)j;
+                    if (mine(&a, idx)) { ++n_special; OV_PW = pw; OV_SALT = st; pbkdf2_case(&a, idx, q & 1 ? 32 : 45, pl, sl, cnt); OV_PW = OV_SALT = NULL; }
+                }
+            }
+            fclose(f);
+        }
+        emit_stat("special_corpus_cases", n_special);
     } else if (!strcmp(a.mode, "pbkdf2huge")) {
         /* thorough: ONE call producing 2^24 + 2 blocks (512 MiB, about a minute): all bytes of the big-endian block index
          * are exercised; sampled blocks are judged against the model (count = 1: T_i = HMAC(P, S || INT(i))) */
